@@ -44,3 +44,22 @@ Fixpoint bools_eqb (a b : list bool) : bool :=
   | x :: a', y :: b' => Bool.eqb x y && bools_eqb a' b'
   | _, _ => false
   end.
+
+(* ---- the send phase of a round: run() walks the connections each holder listed AT THE START of the round ---- *)
+Inductive cstat := CDead | CIdle | CBusy.          (* defunct/closed | no frame since the last round | received traffic *)
+Inductive decision := DNotifyOwner | DHeartbeat | DResetIdle.
+
+Definition decide (c : cstat) : decision :=
+  match c with CDead => DNotifyOwner | CIdle => DHeartbeat | CBusy => DResetIdle end.
+
+(* one decision per listed connection, in order: reporting a dead connection to its owner (which drops it from the owner's
+   list) does not change which connections are visited in this round *)
+Definition send_phase (listed : list cstat) : list decision := map decide listed.
+
+Definition decision_code (d : decision) : Z := match d with DNotifyOwner => 0 | DHeartbeat => 1 | DResetIdle => 2 end.
+Fixpoint zs_eqb (a b : list Z) : bool :=
+  match a, b with
+  | [], [] => true
+  | x :: a', y :: b' => (x =? y) && zs_eqb a' b'
+  | _, _ => false
+  end.
